@@ -48,35 +48,50 @@ func ValidityGrid(seed int64, per int) (viol []Violation, evals int) {
 					panic(err)
 				}
 				evals += 2
-				sub, err := g.SubPermutation(n, m)
-				if err != nil || len(sub) != m || !distinctInRange(sub, n) {
-					add("SubPermutationValid", fmt.Sprintf("SubPermutation(%d,%d) with PRG seed %x returned %v (err %v): not %d distinct elements of [0,%d)", n, m, key, clip(sub), err, m, n))
-				}
-				arr := make([]int, n)
-				for i := range arr {
-					arr[i] = i
-				}
-				bad := false
-				swaps := 0
-				err = g.Samples(n, m, func(i, j int) {
-					swaps++
-					if i < 0 || j < 0 || i >= n || j >= n {
-						bad = true
-						return
-					}
-					arr[i], arr[j] = arr[j], arr[i]
-				})
-				if err != nil || bad || !distinctInRange(arr, n) {
-					add("SamplesValid", fmt.Sprintf("Samples(%d,%d) with PRG seed %x: err %v, swap out of range %v", n, m, key, err, bad))
-				}
-				if m == n {
-					evals++
-					p, err := g.Permutation(n)
-					if err != nil || len(p) != n || !distinctInRange(p, n) {
-						add("PermutationValid", fmt.Sprintf("Permutation(%d) with PRG seed %x returned %v (err %v)", n, key, clip(p), err))
-					}
-				}
+				// a sampler that panics on valid sizes (an index computed from an out-of-range draw) is reported, not fatal to the run
+				func() {
+					defer func() {
+						if r := recover(); r != nil {
+							add("InRange", fmt.Sprintf("samplers with n = %d, m = %d, PRG seed %x: panic: %v (a draw outside its range)", n, m, key, r))
+						}
+					}()
+					validityOne(g, n, m, key, add, &evals)
+				}()
 			}
+		}
+	}
+	return
+}
+
+func validityOne(g random.Rand, n, m int, key []byte, add func(pred, d string), evalsp *int) {
+	evals := 0
+	defer func() { *evalsp += evals }()
+	sub, err := g.SubPermutation(n, m)
+	if err != nil || len(sub) != m || !distinctInRange(sub, n) {
+		add("SubPermutationValid", fmt.Sprintf("SubPermutation(%d,%d) with PRG seed %x returned %v (err %v): not %d distinct elements of [0,%d)", n, m, key, clip(sub), err, m, n))
+	}
+	arr := make([]int, n)
+	for i := range arr {
+		arr[i] = i
+	}
+	bad := false
+	swaps := 0
+	err = g.Samples(n, m, func(i, j int) {
+		swaps++
+		if i < 0 || j < 0 || i >= n || j >= n {
+			bad = true
+			return
+		}
+		arr[i], arr[j] = arr[j], arr[i]
+	})
+	if err != nil || bad || !distinctInRange(arr, n) {
+		add("SamplesValid", fmt.Sprintf("Samples(%d,%d) with PRG seed %x: err %v, swap out of range %v", n, m, key, err, bad))
+	}
+	if m == n {
+		evals++
+		p, err := g.Permutation(n)
+		if err != nil || len(p) != n || !distinctInRange(p, n) {
+			add("PermutationValid", fmt.Sprintf("Permutation(%d) with PRG seed %x returned %v (err %v)", n, key, clip(p), err))
 		}
 	}
 	return
